@@ -6,6 +6,8 @@ sys.path.insert(0, HERE)
 CLAIMS = {
  'C01': ("Lean 4 theorems about the model of the analysis chain (lattice laws, operator tables, flow soundness of any solution, worklist returns a solution, DFS validity) + run-time correspondence of the whole pipeline (CFG, function, stack AST, contexts, the nine detectors' paths) with /repo + concrete AVM-semantics oracle searching for an approvable dangerous transaction without report",
          "The end-to-end composition C01_complete is not yet one theorem: layers are proved separately and composed through hypotheses checked on every run (graph well-formedness, trace facts). Known findings F01-F07 are hypotheses of the partial statements.", "8/C01"),
+ 'C02': ("Lean theorems on the model of search_paths: every returned path is the entry followed by a matched walk (retsub resumes at its own callsub's return point) ending in a leaf, no block twice per activation, no recursion, no validated block (searchPaths_valid); together with searchPaths_complete the reported set is exactly the set of such walks; correspondence of the reported path multisets of all nine detectors + independent executable validity predicate on the real tool's output",
+         "Renderings (short notation / JSON blocks) are checked by parsing them back in the harness; their Lean statement is partial.", "8/C02"),
  'C04': ("Lean theorems about the model of parse_teal's four passes + correspondence of block structure, ordered successor/predecessor lists, retained set with /repo + check that the block trace of every concrete execution of the Lean AVM semantics is a matched walk of the tool's graph",
          "CFG construction is hand-modelled (Cfg.lean) and tied by differential execution on corpus + generated layouts.", "8/C04"),
  'C06': ("Lean theorems: exact true/false sets for all six operators and every constant, exact set algebra, index<size coupling, forward/backward flow soundness for any solution; correspondence of stored contexts; oracle over (size,index) x environments",
